@@ -7,7 +7,7 @@ ls -d seeded/*/ | xargs -n1 basename | xargs -P 6 -I{} env VX_VERUS_ONLY=1 "$@" 
   N={}; D=/verif/seeded/$N
   PROP=$(python3 -c "import json;print(json.load(open(\"$D/meta.json\"))[\"property\"])")
   P=$D/patch.diff; for alt in $D/patch_on_*.diff; do [ -f "$alt" ] && P=$alt; done
-  W=/tmp/sregp/$N; rm -rf $W; mkdir -p /tmp/sregp
+  W=/tmp/sregp_$PPID/$N; rm -rf $W; mkdir -p /tmp/sregp_$PPID
   git -C /repo worktree add -f $W HEAD -q 2>/dev/null || exit 0
   git -C $W apply $P 2>/dev/null || (cd $W && patch -p1 -s --fuzz=3 < $P >/dev/null 2>&1) || { echo "$N prop=$PROP NOAPPLY"; git -C /repo worktree remove --force $W; exit 0; }
   O=$(cd /verif && VX_REPO=$W ./vx check $PROP --tier quick 2>&1); RC=$?
